@@ -115,6 +115,10 @@ type smWrap struct {
 
 func (w *smWrap) SendPatch(patch module.Patch) error { return nil }
 
+// GetMinimizeBlockGen: the on-chain "do not produce empty blocks" switch, drawn per run (a tuning knob
+// the engine's transaction-wait step depends on).
+func (w *smWrap) GetMinimizeBlockGen(result []byte) bool { return w.inc.s.cfg.MinBlockGen }
+
 func (w *smWrap) SendDoubleSignReport(result []byte, vh []byte, data []module.DoubleSignData) error {
 	w.inc.s.onDoubleSignReport(w.inc, data)
 	return nil
@@ -250,6 +254,7 @@ type config struct {
 	ReplayOld    bool // re-deliver arbitrarily old messages
 	SlowPm       int  // per-mille of deliveries that take seconds instead of milliseconds
 	DropPrecommitPm int // per-mille of precommit votes of rounds 0-2 that are lost (locks without commits)
+	MinBlockGen     bool // chain configured not to produce empty blocks (validators wait for transactions before proposing)
 	SplitPolkaPm    int // per-mille of (height, round < 3) in which prevotes reach only a tape-chosen subset of the validators (some lock, some do not)
 	LagHeights   int64 // fastsync profile: the laggard boots when the others have finalized this many heights
 }
@@ -635,7 +640,7 @@ func (s *sim) handleCrashes() bool {
 			span := int(l.size - l.floor)
 			cut := l.size
 			if span > 0 {
-				switch s.tape.Weighted("crash.cut", 4, 3, 3, 2) {
+				switch s.tape.Weighted("crash.cut", 4, 3, 3, 2, 2) {
 				case 0: // everything that reached the OS survives
 				case 1:
 					cut = l.floor
@@ -643,6 +648,21 @@ func (s *sim) handleCrashes() bool {
 					cut = l.floor + int64(s.tape.Choose("crash.cutlen", span+1))
 				case 3: // biased: just after a record header near the end / one byte short
 					cut = tornCut(l.data, l.floor, s.tape)
+				case 4:
+					// torn sectors: the file kept its length and the header of an unsynced record, but the
+					// payload bytes that should follow never reached the disk (what is there is junk): a
+					// full-length record whose checksum does not match
+					if b := tornCut(l.data, l.floor, nil); b >= l.floor && b+8 < l.size {
+						junk := append([]byte(nil), l.data...)
+						seed := uint64(s.tape.Choose("crash.junk", 1<<30)) + 1
+						for i := b + 8; i < l.size; i++ {
+							seed = seed*6364136223846793005 + 1442695040888963407
+							junk[i] = byte(seed>>33) | 1
+						}
+						if os.WriteFile(l.tailPath, junk, 0600) == nil {
+							s.rc.Fault("torn_wal_payload_junk")
+						}
+					}
 				}
 			}
 			if cut < l.size {
@@ -683,6 +703,9 @@ func tornCut(data []byte, floor int64, t *kit.Tape) int64 {
 	}
 	if len(bounds) == 0 {
 		return floor
+	}
+	if t == nil {
+		return bounds[0] // first record that is not covered by a sync
 	}
 	b := bounds[len(bounds)-1-t.Choose("crash.bound", len(bounds))]
 	d := []int64{8, 1, 4, 7, 9, 0}[t.Choose("crash.off", 6)]
